@@ -175,6 +175,13 @@ def check_accessors(ro, add, order=None):
             o, off = get(lab + '.offset', lambda: st.offset)
             if o and all_dur and unique and off != t:
                 add('C16.timing', '%s.offset %r, expected %r' % (lab, off, t))
+            if o and not all_dur and unique and off is not None:
+                # some story has no duration: an offset, when one is given at all, can only be the sum of the
+                # durations before it (known ones; a missing one counting as nothing) - never an invented value
+                if any(d is None for d in durs[:i]) and off != sum(d for d in durs[:i] if d is not None):
+                    add('C16.timing', '%s.offset %r although a story before it has no duration (known durations before it add up to %r)' % (
+                        lab, off, sum(d for d in durs[:i] if d is not None)))
+                    add('C15.accessor', '%s.offset %r is not in the document: a story before it has no duration' % (lab, off))
             e_start = exp_explicit(es, 'StoryStarted')
             if e_start is None and all_dur and unique and exp_ro_start is not None:
                 e_start = exp_ro_start + timedelta(seconds=t)
